@@ -108,10 +108,14 @@ func (fc *FnCtx) callByContract(fr *Frame, st *State, reach string, con *Contrac
 	}
 	vars := bindParams(con, callee, args)
 	sig := callee.Signature
-	// receiver non-nil
-	if sig.Recv() != nil && !con.NilRecv && len(args) > 0 && args[0].K == KAddr && args[0].A.Kind == AObj && len(args[0].A.Path) == 0 {
-		if !fc.nonNil[args[0].A.Base] {
-			fc.oblige(fr, "nil", "receiver of "+shortName(callee), reach, tNot(tEq(args[0].A.Base, "0")), false, nil)
+	// pointer arguments non-nil
+	for i, a := range args {
+		if i >= len(callee.Params) {
+			break
+		}
+		if a.K == KAddr && a.A.Kind == AObj && len(a.A.Path) == 0 && a.A.Idx == "" && !fc.nonNil[a.A.Base] &&
+			!con.nilable(callee.Params[i].Name(), i == 0 && sig.Recv() != nil) {
+			fc.oblige(fr, "nil", "argument "+callee.Params[i].Name()+" of "+shortName(callee), reach, tNot(tEq(a.A.Base, "0")), false, nil)
 		}
 	}
 	for _, cl := range con.Requires {
@@ -155,7 +159,9 @@ func (fc *FnCtx) callByContractIface(fr *Frame, st *State, reach string, con *Co
 
 // modTarget is one evaluated modifies item.
 type modTarget struct {
-	kind  string // "field", "elems", "obj", "map"
+	kind  string // "field", "elems", "obj", "ghost"
+	ghost string
+	ref   string
 	addr  *Addr
 	slice Val
 	text  string
@@ -165,6 +171,16 @@ func (fc *FnCtx) evalModifies(pre *State, con *Contract, vars map[string]Val) []
 	var out []modTarget
 	for _, m := range con.Modifies {
 		env := fc.specEnv(pre, nil, vars, con.Pkg, nil, "modifies "+m)
+		if i := strings.Index(m, "("); i > 0 && strings.HasSuffix(m, ")") {
+			if g := fc.eng.ghosts[m[:i]]; g != nil && g.Field {
+				sp, err := parseSpec(m[i+1 : len(m)-1])
+				if err != nil {
+					env.fail("%v", err)
+				}
+				out = append(out, modTarget{kind: "ghost", ghost: g.Name, ref: refOf(env.eval(sp)), text: m})
+				continue
+			}
+		}
 		switch {
 		case strings.HasPrefix(m, "elems(") && strings.HasSuffix(m, ")"):
 			sp, err := parseSpec(m[6 : len(m)-1])
@@ -178,6 +194,14 @@ func (fc *FnCtx) evalModifies(pre *State, con *Contract, vars map[string]Val) []
 				env.fail("%v", err)
 			}
 			v := env.eval(sp)
+			if v.K == KIface {
+				for _, t := range fc.eng.implementers(v.T) {
+					if pt, ok := t.(*types.Pointer); ok && structOf(pt.Elem()) != nil {
+						out = append(out, modTarget{kind: "obj", addr: &Addr{Kind: AObj, Base: v.S, Root: pt.Elem(), T: pt.Elem()}, text: m})
+					}
+				}
+				continue
+			}
 			if v.K != KAddr {
 				env.fail("x.* needs a pointer")
 			}
@@ -187,8 +211,22 @@ func (fc *FnCtx) evalModifies(pre *State, con *Contract, vars map[string]Val) []
 			if err != nil {
 				env.fail("%v", err)
 			}
+			if g, ok := sp.(*SGo); ok {
+				if id, ok := g.E.(*ast.Ident); ok && env.isVar(id.Name) {
+					v := env.eval(sp)
+					if _, isMap := v.T.Underlying().(*types.Map); isMap {
+						out = append(out, modTarget{kind: "map", slice: v, ref: v.S, text: m})
+						continue
+					}
+				}
+			}
 			a := env.lvalue(sp)
 			out = append(out, modTarget{kind: "field", addr: a, text: m})
+			if mt, ok := a.T.Underlying().(*types.Map); ok {
+				mv := fc.load(pre, a)
+				_ = mt
+				out = append(out, modTarget{kind: "map", slice: mv, ref: mv.S, text: m})
+			}
 		}
 	}
 	return out
@@ -202,7 +240,19 @@ func (env *SpecEnv) lvalue(sp Spec) *Addr {
 	}
 	switch t := g.E.(type) {
 	case *ast.SelectorExpr:
-		x := env.expr(t.X)
+		var x Val
+		if inner, ok := t.X.(*ast.SelectorExpr); ok {
+			// x.a.b where a is a struct-valued field: address of x.a, extended
+			if _, isPkg := inner.X.(*ast.Ident); !isPkg || env.isVar(inner.X.(*ast.Ident).Name) {
+				base := env.lvalue(&SGo{inner})
+				if structOf(base.T) != nil && !isPointer(base.T) {
+					x = Val{K: KAddr, T: types.NewPointer(base.T), A: base}
+				}
+			}
+		}
+		if x.A == nil {
+			x = env.expr(t.X)
+		}
 		if x.K != KAddr {
 			env.fail("lvalue base is not a pointer")
 		}
@@ -248,6 +298,11 @@ func (env *SpecEnv) lvalue(sp Spec) *Addr {
 	return nil
 }
 
+func (env *SpecEnv) isVar(name string) bool {
+	_, ok := env.lookupVar(name)
+	return ok
+}
+
 func isPointer(t types.Type) bool { _, ok := t.Underlying().(*types.Pointer); return ok }
 
 func pkgOfType(t types.Type, def *types.Package) *types.Package {
@@ -277,6 +332,11 @@ func (fc *FnCtx) applyModifies(st, pre *State, con *Contract, vars map[string]Va
 			}
 		case "elems":
 			fc.havocElems(st, m.slice)
+		case "map":
+			fc.havocMap(st, m.slice, m.slice.T.Underlying().(*types.Map))
+		case "ghost":
+			g := fc.eng.ghosts[m.ghost]
+			fc.storeLoc(st, loc{name: "GH$" + m.ghost, idx: []string{m.ref}, sort: g.Ret}, fc.sc.fresh("gh_"+m.ghost, g.Ret))
 		}
 	}
 	// callee allocations: allocation only grows
@@ -304,10 +364,6 @@ func (fc *FnCtx) havocAddr(st *State, a *Addr) {
 	}
 	v := fc.freshVal(st, a.T, "mod")
 	fc.store(st, a, v)
-	// a map-valued field: contents of the (old) map may change as well
-	if mt, ok := a.T.Underlying().(*types.Map); ok {
-		fc.havocMap(st, fc.load(st, a), mt)
-	}
 }
 
 func (fc *FnCtx) havocMap(st *State, m Val, mt *types.Map) {
@@ -370,6 +426,24 @@ func (fc *FnCtx) checkInvariants(fr *Frame, h *ssa.BasicBlock, li int, st *State
 		t := env.evalBool(cl.Expr)
 		fc.oblige(fr, "invariant-"+where, fmt.Sprintf("loop %d: %s", li, clauseName(cl)), reach, t, env.quant, nil)
 	}
+	// automatic candidates: the function's frame condition holds at the loop head
+	if fr.parent == nil && fc.con != nil && fc.con.HasMod && !fc.con.ModAll && !fc.discovery && !fc.loopHavocAll[h] {
+		for _, name := range fc.loopWriteNames(h) {
+			key := fmt.Sprintf("%s/loop%d/frame/%s", fr.prefix, li, name)
+			if fc.eng.droppedCand[fc.fn.String()][key] {
+				continue
+			}
+			cond := fc.frameCond(st, name, fc.modTargets)
+			if cond == "" {
+				continue
+			}
+			o := fc.oblige(fr, "auto-invariant-"+where, fmt.Sprintf("loop %d: frame %s", li, name), reach, cond, true, nil)
+			if o != nil {
+				o.Candidate = true
+				o.CandKey = key
+			}
+		}
+	}
 	// automatic candidates: monotone induction variables
 	for _, p := range phis {
 		for _, c := range fc.autoCandidates(fr, h, p) {
@@ -395,6 +469,17 @@ func (fc *FnCtx) assumeInvariants(fr *Frame, h *ssa.BasicBlock, li int, st *Stat
 		env := fc.invEnv(fr, st, cur, phis, cl.Text)
 		fc.sc.assume(tImp(reach, env.evalBool(cl.Expr)))
 	}
+	if fr.parent == nil && fc.con != nil && fc.con.HasMod && !fc.con.ModAll && !fc.discovery && !fc.loopHavocAll[h] {
+		for _, name := range fc.loopWriteNames(h) {
+			key := fmt.Sprintf("%s/loop%d/frame/%s", fr.prefix, li, name)
+			if fc.eng.droppedCand[fc.fn.String()][key] {
+				continue
+			}
+			if cond := fc.frameCond(st, name, fc.modTargets); cond != "" {
+				fc.sc.assume(tImp(reach, cond))
+			}
+		}
+	}
 	for _, p := range phis {
 		for _, c := range fc.autoCandidates(fr, h, p) {
 			key := fmt.Sprintf("%s/loop%d/%s/%s", fr.prefix, li, p.Comment, c.key)
@@ -406,6 +491,15 @@ func (fc *FnCtx) assumeInvariants(fr *Frame, h *ssa.BasicBlock, li int, st *Stat
 			}
 		}
 	}
+}
+
+func (fc *FnCtx) loopWriteNames(h *ssa.BasicBlock) []string {
+	var ns []string
+	for n := range fc.loopWrites[h] {
+		ns = append(ns, n)
+	}
+	sort.Strings(ns)
+	return ns
 }
 
 type autoCand struct {
@@ -563,10 +657,10 @@ func (fc *FnCtx) verify() {
 		v := fc.freshVal(st, p.Type(), "p_"+p.Name())
 		fr.vals[p] = v
 		args = append(args, v)
-		if i == 0 && fn.Signature.Recv() != nil && v.K == KAddr && (con == nil || !con.NilRecv) {
+		if v.K == KAddr && v.A.Kind == AObj && (con == nil || !con.nilable(p.Name(), i == 0 && fn.Signature.Recv() != nil)) {
 			fc.sc.assume(tNot(tEq(v.A.Base, "0")))
 			fc.nonNil[v.A.Base] = true
-			fc.assumption("A-RECV: methods are verified for non-nil receivers (call sites under contract check it)")
+			fc.assumption("A-NONNIL: pointer-to-struct parameters (incl. receivers) are non-nil unless declared `nilable`; call sites under contract check it")
 		}
 		fc.watchVal(v)
 	}
@@ -576,6 +670,9 @@ func (fc *FnCtx) verify() {
 		for _, cl := range con.Requires {
 			env := fc.specEnv(st, nil, vars, con.Pkg, fr, cl.Text)
 			fc.sc.assume(env.evalBool(cl.Expr))
+		}
+		if con.HasMod && !con.ModAll {
+			fc.modTargets = fc.evalModifies(st, con, vars)
 		}
 	}
 	// vacuity guard: the precondition must be satisfiable
@@ -641,22 +738,38 @@ func (fc *FnCtx) frameCheck(fr *Frame, st, pre *State, con *Contract, vars map[s
 		fc.oblige(fr, "frame", "function havocs the heap (unmodelled callee) but declares a modifies clause", reach, "false", false, nil)
 		return
 	}
-	targets := fc.evalModifies(pre, con, vars)
-	alloc0 := fc.epochTerm(fc.ep0, "Alloc", "(Array Int Bool)")
+	targets := fc.modTargets
 	names := make([]string, 0, len(fc.writtenNames))
 	for n := range fc.writtenNames {
 		names = append(names, n)
 	}
 	sort.Strings(names)
 	for _, name := range names {
-		if name == "Alloc" || strings.HasPrefix(name, "B$") {
+		cond := fc.frameCond(st, name, targets)
+		if cond == "" {
 			continue
 		}
+		fc.oblige(fr, "frame", name, reach, cond, true, nil)
+	}
+}
+
+// frameCond: the condition that heap name is unchanged since entry outside
+// the modifies targets, for objects allocated at entry ("" if trivially so).
+func (fc *FnCtx) frameCond(st *State, name string, targets []modTarget) string {
+	alloc0 := fc.epochTerm(fc.ep0, "Alloc", "(Array Int Bool)")
+	{
+		{
+		if name == "Alloc" || strings.HasPrefix(name, "B$") {
+			return ""
+		}
 		srt := fc.sorts[name]
+		if srt == "" {
+			return ""
+		}
 		cur := fc.heapTerm(st, name, srt)
 		old := fc.epochTerm(fc.ep0, name, srt)
 		if cur == old {
-			continue
+			return ""
 		}
 		var cond string
 		switch {
@@ -671,7 +784,7 @@ func (fc *FnCtx) frameCheck(fr *Frame, st, pre *State, con *Contract, vars map[s
 				}
 			}
 			if allowed {
-				continue
+				return ""
 			}
 			cond = tEq(cur, old)
 		case strings.HasPrefix(name, "H$"):
@@ -690,6 +803,14 @@ func (fc *FnCtx) frameCheck(fr *Frame, st, pre *State, con *Contract, vars map[s
 				}
 				if match {
 					ex = append(ex, tEq("r", t.addr.Base))
+				}
+			}
+			cond = "(forall ((r Int)) (=> (and (select " + alloc0 + " r) " + tNot(tOr(ex...)) + ") (= (select " + cur + " r) (select " + old + " r))))"
+		case strings.HasPrefix(name, "GH$"):
+			var ex []string
+			for _, t := range targets {
+				if t.kind == "ghost" && "GH$"+t.ghost == name {
+					ex = append(ex, tEq("r", t.ref))
 				}
 			}
 			cond = "(forall ((r Int)) (=> (and (select " + alloc0 + " r) " + tNot(tOr(ex...)) + ") (= (select " + cur + " r) (select " + old + " r))))"
@@ -713,16 +834,15 @@ func (fc *FnCtx) frameCheck(fr *Frame, st, pre *State, con *Contract, vars map[s
 			// maps reachable from a modified map-valued field may change
 			var ex []string
 			for _, t := range targets {
-				if t.kind == "field" {
-					if _, ok := t.addr.T.Underlying().(*types.Map); ok {
-						ex = append(ex, tEq("r", fc.load(pre, t.addr).S))
-					}
+				if t.kind == "map" {
+					ex = append(ex, tEq("r", t.ref))
 				}
 			}
 			cond = "(forall ((r Int)) (=> (and (select " + alloc0 + " r) " + tNot(tOr(ex...)) + ") (= (select " + cur + " r) (select " + old + " r))))"
 		default:
-			continue
+			return ""
 		}
-		fc.oblige(fr, "frame", name, reach, cond, true, nil)
+		return cond
+		}
 	}
 }
